@@ -259,7 +259,7 @@ def decide(pid, tier, seed, t0):
             log.setdefault("known_findings_not_reproduced", []).append(k["signature"])
     # fixed findings: their witnesses must pass now
     for k in known.get("fixed", []):
-        if k["property"] == pid and "witness" in k and os.path.exists(os.path.join(V.VERIF, k["witness"])):
+        if k["property"] == pid and k.get("kind") != "schedule" and "witness" in k and os.path.exists(os.path.join(V.VERIF, k["witness"])):
             if witness_still_fails(pid, k):
                 path = replay_file(pid, "history", load_lines(os.path.join(V.VERIF, k["witness"])), {"regressed_fix": k["commit"], "what": k["what"]})
                 violations.append(("history", path, "fixed defect is back: " + k["what"], False))
@@ -299,6 +299,10 @@ def decide(pid, tier, seed, t0):
 
 
 def witness_still_fails(pid, k):
+    if k.get("kind") == "schedule":
+        import sched
+        _, viols = sched.run_property(pid, {})
+        return any(v.get("signature") == k["signature"] for v in viols)
     ops = load_lines(os.path.join(V.VERIF, k["witness"]))
     impl, opath = V.run_impl_replay(ops, "witness")
     mon = M.MONITORS.get(pid)
